@@ -102,6 +102,9 @@ func vfC11Run(cs vfC11Case, res *vfC11Res) string {
 	before := vfGoroutineIDs(vfTransferGoroutines())
 	sess := vfNewSession(sc.Sess)
 	defer sess.close()
+	if strings.HasPrefix(cs.Fault, "silence_mid_") {
+		sess.wire(strings.TrimPrefix(cs.Fault, "silence_mid_")).seg = vfSeg{Mode: 5}
+	}
 	writeFail := false
 	fire := func() {
 		switch cs.Fault {
@@ -112,6 +115,13 @@ func vfC11Run(cs vfC11Case, res *vfC11Res) string {
 		case "silence_both":
 			sess.wire("c2s").setSilent(true)
 			sess.wire("s2c").setSilent(true)
+		case "silence_mid_c2s", "silence_mid_s2c":
+			// the silence begins four bytes into the next line, and those four bytes arrive in one read with what was written
+			// just before them (the link delivers what is written within 3 ms together)
+			lk := sess.wire(strings.TrimPrefix(cs.Fault, "silence_mid_"))
+			lk.mu.Lock()
+			lk.silentIn = 4
+			lk.mu.Unlock()
 		case "tunnel_break":
 			sess.breakTunnel()
 		case "client_write_error":
@@ -346,7 +356,7 @@ func TestVF_C11(t *testing.T) {
 			c.violation("dryrun", sc, msg)
 			t.Fatalf("%s", msg)
 		}
-		faults := []string{"silence_c2s", "silence_s2c", "silence_both", "client_write_error", "source_shrink", "source_remove"}
+		faults := []string{"silence_c2s", "silence_s2c", "silence_both", "silence_mid_c2s", "silence_mid_s2c", "client_write_error", "source_shrink", "source_remove"}
 		if sc.Sess.Tunnel {
 			// over the tunnel: either direction of the TCP connection goes silent, or the connection breaks
 			faults = []string{"silence_c2s", "silence_s2c", "silence_both", "tunnel_break"}
